@@ -164,9 +164,12 @@ func (s *liveSim) fire(i int) {
 			s.evAt[rnd][i] = s.now
 		}
 	}
+	s.w.mu.Lock()
+	glb := len(s.w.gateLog)
+	s.w.mu.Unlock()
 	c.fire()
 	if ph == bft.CommitProcess {
-		settle()
+		s.w.settleCommit(i, glb)
 	}
 	if ph == bft.ElectionVote {
 		// whom did it vote for? the last message it handed to the transport
